@@ -20,7 +20,7 @@ class C01(PropBase):
     extractors = ["sites", "ma_code"]
     rule = ("the real reader thread (overflow checks on, catch_unwind) and the built CLI (debug profile; thorough: also release, "
             "panic=abort) on: every digit count 0..64, every DF against both lengths, exhaustive AC13/AC12/ID13/vertical-rate "
-            "sweeps, velocity and CPR boundary fields, random and boundary Comm-B registers, non-hex / NUL / non-UTF-8 / lone CR / "
+            "sweeps, velocity and CPR boundary fields, low altitudes followed by every negative GNSS-height difference, random and boundary Comm-B registers, non-hex / NUL / non-UTF-8 / lone CR / "
             "64 KiB-1 MiB lines, histories of up to 60 lines over 3 addresses on both update paths, option sets -U/-R x -f x -c x "
             "-i x -o x -d x -u (incl. values beyond chrono's range). A run counts as evaluated per line; non-trivial = stream that "
             "contains a hostile line followed by a well-formed one whose aircraft must appear; distinct by stream.")
@@ -53,6 +53,16 @@ class C01(PropBase):
             yield F.df17(5, 0x100 + (c % 3), F.me_airpos(9 + c % 10, 0, 0, c, 0, c & 1, rng.choice([0, 1, 131071, rng.randrange(131072)]), rng.choice([0, 1, 131071, rng.randrange(131072)])))
         for v in range(1024):
             yield F.df17(5, 0x100 + (v % 3), F.me_velocity(1 + v % 4, 0, 0, 0, v & 1, rng.choice([0, 1, 1023, v]), (v >> 1) & 1, rng.choice([0, 1, 1023, v]), 0, (v >> 2) & 1, v % 512, v & 1, v % 128))
+        # two-frame sequences: a low barometric altitude, then a velocity squitter whose GNSS-minus-baro difference is
+        # negative and larger than it (every difference code, both ways of setting the altitude)
+        for n in (40, 41, 44, 52, 60, 80, 100, 130, 166):
+            for d in range(128):
+                ad = 0x100 + (d % 3)
+                if d & 1:
+                    yield F.df17(5, ad, F.me_airpos(11, 0, 0, F.ac12_q1(n), 0, d & 1, 1 + d, 1 + d))
+                else:
+                    yield F.df4(0, 0, 0, F.ac13_q1(n), ad)
+                yield F.df17(5, ad, F.me_velocity(1 + d % 2, 0, 0, 0, 0, 10, 0, 10, 0, 0, 5, 1, d))
         for tc in range(32):
             for _ in range(20):
                 yield F.df17(rng.randrange(8), 0x100 + rng.randrange(3), F.me_raw(tc, rng.choice([0, (1 << 51) - 1, rng.randrange(1 << 51)])))
